@@ -234,7 +234,7 @@ func (s *Stream) handleData(pd *chunkPayloadData) error {
 		s.log.Debugf("[%s] reassemblyQueue readable=%v", s.name, readable)
 		if readable {
 			s.log.Debugf("[%s] readNotifier.signal()", s.name)
-			s.readNotifier.Signal()
+			s.readNotifier.Broadcast()
 			s.log.Debugf("[%s] readNotifier.signal() done", s.name)
 		}
 	}
@@ -257,7 +257,7 @@ func (s *Stream) handleForwardTSNForOrdered(ssn uint16) {
 
 	// Notify the reader asynchronously if there's a data chunk to read.
 	if readable {
-		s.readNotifier.Signal()
+		s.readNotifier.Broadcast()
 	}
 }
 
@@ -276,7 +276,7 @@ func (s *Stream) handleForwardTSNForUnordered(newCumulativeTSN uint32) {
 
 	// Notify the reader asynchronously if there's a data chunk to read.
 	if readable {
-		s.readNotifier.Signal()
+		s.readNotifier.Broadcast()
 	}
 }
 
@@ -292,7 +292,7 @@ func (s *Stream) handleForwardTSNForOrderedMID(mid uint32) {
 	}()
 
 	if readable {
-		s.readNotifier.Signal()
+		s.readNotifier.Broadcast()
 	}
 }
 
@@ -308,7 +308,7 @@ func (s *Stream) handleForwardTSNForUnorderedMID(mid uint32) {
 	}()
 
 	if readable {
-		s.readNotifier.Signal()
+		s.readNotifier.Broadcast()
 	}
 }
 
